@@ -5,6 +5,8 @@ import PiqpModel.Api
 # C05 — rejected calls leave the solver unchanged and usable
 -/
 
+set_option linter.unusedSectionVars false
+
 namespace Piqp.C05
 
 variable {K : Type}
@@ -45,5 +47,52 @@ theorem rejected_is_identity (cs : Consts K) (sqrtF : K → K) (poison : K) (st 
     · rename_i _ a hs
       rw [hs] at h
       simp at h
+
+def isRej : Outcome → Bool
+  | .rejected _ => true
+  | _ => false
+
+/-- run a call history: final state and the outcome of every call -/
+def run (cs : Consts K) (sqrtF : K → K) (poison : K) (st : ApiState K) : List (Call K) → ApiState K × List Outcome
+  | [] => (st, [])
+  | c :: rest =>
+    let r := apiStep cs sqrtF poison st c
+    let t := run cs sqrtF poison r.1 rest
+    (t.1, r.2 :: t.2)
+
+/-- the same history with every call that would be rejected *never made* -/
+def runSkip (cs : Consts K) (sqrtF : K → K) (poison : K) (st : ApiState K) : List (Call K) → ApiState K × List Outcome
+  | [] => (st, [])
+  | c :: rest =>
+    let r := apiStep cs sqrtF poison st c
+    if isRej r.2 then runSkip cs sqrtF poison st rest
+    else
+      let t := runSkip cs sqrtF poison r.1 rest
+      (t.1, r.2 :: t.2)
+
+/-- **C05, rejected calls are transparent.** For every call history with rejected calls at any positions: the final state
+    and the outcomes (statuses, results inside the state) of all the other calls are exactly those of the history in
+    which the rejected calls were never made. -/
+theorem rejection_transparent (cs : Consts K) (sqrtF : K → K) (poison : K) (calls : List (Call K)) :
+    ∀ st : ApiState K,
+      (run cs sqrtF poison st calls).1 = (runSkip cs sqrtF poison st calls).1 ∧
+      (run cs sqrtF poison st calls).2.filter (fun o => !isRej o) = (runSkip cs sqrtF poison st calls).2 := by
+  induction calls with
+  | nil => intro st; exact ⟨rfl, rfl⟩
+  | cons c rest ih =>
+    intro st
+    simp only [run, runSkip]
+    cases hr : isRej (apiStep cs sqrtF poison st c).2
+    · simp only [Bool.false_eq_true, if_false, List.filter_cons, hr, Bool.not_false, if_true]
+      obtain ⟨h1, h2⟩ := ih (apiStep cs sqrtF poison st c).1
+      exact ⟨h1, by rw [h2]⟩
+    · simp only [if_true, List.filter_cons, hr, Bool.not_true, Bool.false_eq_true, if_false]
+      have hid : (apiStep cs sqrtF poison st c).1 = st := by
+        cases ho : (apiStep cs sqrtF poison st c).2 with
+        | rejected msg => exact rejected_is_identity cs sqrtF poison st c msg ho
+        | done => rw [ho] at hr; simp [isRej] at hr
+        | status s => rw [ho] at hr; simp [isRej] at hr
+      rw [hid]
+      exact ih st
 
 end Piqp.C05
